@@ -418,6 +418,71 @@ def timed_check(solver, timeout_ms, *assumptions):
     return r
 
 
+def _has_uf_or_int(fs):
+    seen = set()
+    stack = list(fs)
+    while stack:
+        x = stack.pop()
+        i = x.get_id()
+        if i in seen:
+            continue
+        seen.add(i)
+        if z3.is_app(x):
+            d = x.decl()
+            if d.kind() == z3.Z3_OP_UNINTERPRETED and (x.num_args() > 0 or x.sort().kind() != z3.Z3_REAL_SORT) and not z3.is_bool(x):
+                return True
+            if d.kind() in (z3.Z3_OP_TO_REAL, z3.Z3_OP_TO_INT, z3.Z3_OP_IDIV, z3.Z3_OP_MOD):
+                return True
+            stack.extend(x.children())
+    return False
+
+
+def robust_check(assertions, total_ms, stats=None):
+    """Decide sat/unsat of a conjunction with a ladder of strategies.  z3's nonlinear reasoning is sensitive to
+    heuristics (the same goal can take 0.1 s or minutes), so a short default attempt is followed by the nlsat
+    tactic (pure real goals), reseeded attempts and an attempt in a fresh context, until the total budget is used.
+    Returns (result, strategy)."""
+    t_end = time.time() + total_ms / 1000.0
+    assertions = list(assertions)
+
+    def left():
+        return max(0.0, t_end - time.time()) * 1000.0
+    plan = [('default', 4000)]
+    pure = not _has_uf_or_int(assertions)
+    if pure:
+        plan.append(('nlsat', 15000))
+    plan += [('seed1', 8000), ('freshctx', 15000), ('seed2', 15000)]
+    if pure:
+        plan.append(('nlsat', 60000))
+    plan.append(('default', 10 ** 9))
+    for name, ms in plan:
+        ms = min(ms, left())
+        if ms < 200:
+            break
+        try:
+            if name == 'nlsat':
+                s = z3.Then('simplify', 'purify-arith', 'qfnra-nlsat').solver()
+                s.add(*assertions)
+            elif name == 'freshctx':
+                ctx = z3.Context()
+                s = z3.Solver(ctx=ctx)
+                s.add(*[a.translate(ctx) for a in assertions])
+            else:
+                s = z3.Solver()
+                if name.startswith('seed'):
+                    s.set('random_seed', int(name[4:]) * 7919)
+                    s.set('smt.arith.random_initial_value', True)
+                s.add(*assertions)
+            r = timed_check(s, ms)
+        except z3.Z3Exception:
+            r = z3.unknown
+        if stats is not None:
+            stats[name] = stats.get(name, 0) + 1
+        if r != z3.unknown:
+            return r, name
+    return z3.unknown, 'none'
+
+
 class Explorer:
     def __init__(self, base=(), timeout_ms=10000):
         self.base = list(base)
